@@ -105,8 +105,10 @@ def result(
     counters: dict[str, int] | None = None,
     sample: object = None,
     info: dict | None = None,
+    sigs: list[str] | None = None,
 ) -> dict:
     return {
+        "sigs": sigs,
         "sig": sig,
         "nontrivial": bool(nontrivial),
         "violations": violations or [],
